@@ -59,6 +59,7 @@ static REG: OnceLock<Box<[AtomicU8]>> = OnceLock::new();
 static NEXT_SERIAL: AtomicU32 = AtomicU32::new(1);
 /// payloads carry a heap allocation unless pod mode is on (Miri mpmc shared-stream shards)
 static POD_MODE: AtomicBool = AtomicBool::new(false);
+static WRAPPED: AtomicBool = AtomicBool::new(false);
 /// clones / closures that saw other boundary events happen while they were in progress
 pub static MID_OVERLAPS: AtomicU64 = AtomicU64::new(0);
 pub static CLONES: AtomicU64 = AtomicU64::new(0);
@@ -93,7 +94,7 @@ pub fn set_pod_mode(on: bool) {
 pub fn reset_ledger() {
     let used = NEXT_SERIAL.swap(1, SeqCst) as usize;
     let r = reg();
-    let used = used.min(r.len());
+    let used = if WRAPPED.swap(false, Relaxed) { r.len() } else { used.min(r.len()) };
     for s in r.iter().take(used) {
         s.store(UNBORN, Relaxed);
     }
@@ -163,16 +164,17 @@ struct Snap {
 
 impl Tracked {
     pub fn new(id: u64) -> Tracked {
-        let serial = NEXT_SERIAL.fetch_add(1, SeqCst);
         let r = reg();
+        let mut serial = NEXT_SERIAL.fetch_add(1, SeqCst);
         if (serial as usize) >= r.len() {
-            // harness capacity problem, not a property violation
-            hooks::harness_error("payload registry exhausted");
-        } else {
-            let prev = r[serial as usize].swap(ALIVE, SeqCst);
-            if prev != UNBORN {
-                hooks::harness_error("serial reused");
-            }
+            // long stress runs: recycle ledger slots (the registry is far larger than anything a
+            // queue can hold, so the previous occupant of a slot must be dead by now)
+            serial = 1 + (serial % (r.len() as u32 - 1));
+            WRAPPED.store(true, Relaxed);
+        }
+        let prev = r[serial as usize].swap(ALIVE, SeqCst);
+        if prev == ALIVE {
+            hooks::harness_error("payload registry slot recycled while its previous occupant is alive");
         }
         BIRTHS.fetch_add(1, Relaxed);
         Tracked {
